@@ -60,9 +60,25 @@ def job(j):
     def default_cell(w, rec):
         """the candidate value spelled as the DEFAULT of a variable that is not provided: an invalid used default refuses the
         request, a valid one is coerced like the provided value (R1_Ways: ArgsVarDefault.refused <=> VarRes.refused)"""
-        if rec["v"]["t"] == "N":
-            return
         ty = render.typeref(rec["type"])
+        if rec["v"]["t"] == "N":
+            # `= null` as the default of a variable that is not provided: refused for a non-null variable type,
+            # an explicit null (kept distinct from absent) for a nullable one
+            st["n"] += 1
+            q = "query ($a: %s = null) { e%d(a: $a) }" % (ty, rec["ti"])
+            resp = w.run(q, {"zz": 7})
+            if rec["type"][0] == "NN":
+                mm = refused_ok(resp, w)
+            else:
+                mm = []
+                if not isinstance(resp, dict) or resp.get("errors") or "__raised__" in resp:
+                    mm.append("null default of a nullable variable refused / errors: %r" % (resp,))
+                elif len(w.calls) != 1 or not render.strict_eq(w.calls[0][2], {"a": None}):
+                    mm.append("resolver saw %r, expected {'a': None}" % (w.calls,))
+            if mm and len(st["viol"]) < 400:
+                genrun.add_viol(st["viol"], ({"kind": "default-cell", "type": ty, "refused_expected": rec["type"][0] == "NN", "first": "null default: " + mm[0][:90]},
+                                   {"cell": rec, "query": q, "mismatches": mm, "response": repr(resp)[:1500]}))
+            return
         for k in (0, 1):
             st["n"] += 1
             vdef = "$a: %s = %s" % (ty, lit_text(rec["lit"], k))
